@@ -35,6 +35,7 @@ Gt(s, t) == ~Lt(s, t) /\ Ne(s, t)
 Le(s, t) == Lt(s, t) \/ Eq(s, t)
 Ge(s, t) == ~Lt(s, t)
 
+Update(t, u) == u                     \* Time.update(other): the object takes the other time's quotient and remainder
 Val(t) == t.q * Den + t.r             \* exact value times Den (finite times)
 
 (* ------------------------------------------------ clauses of C14 (operator level) *)
@@ -65,11 +66,13 @@ ASSUME AddExact /\ AddMonotone /\ AddNeverDecreases /\ OrderIsRational /\ InfGre
 VARIABLE now
 Init == now = FromFloat(0)
 Advance(d) == now' = Add(now, d)
-Next == \E d \in Disps : ~IsInf(now) /\ Advance(d)
+Reassign(u) == now' = Update(now, u)           \* a time stamp object is overwritten in place (event handlers do this)
+Next == \/ \E d \in Disps : ~IsInf(now) /\ Advance(d)
+        \/ \E u \in FiniteTimes : Reassign(u)
 Spec == Init /\ [][Next]_now
 InRange == IsInf(now) \/ (now.q <= QHi /\ now.q >= QLo)
 ClockNormalised == Normalised(now)
-ClockNeverBack  == [][~Lt(now', now) \/ \E d \in DLo .. -1 : now' = Add(now, d)]_now
+ClockNeverBack  == [][~Lt(now', now) \/ (\E d \in DLo .. -1 : now' = Add(now, d)) \/ (\E u \in FiniteTimes : now' = u)]_now
 
 (* ------------------------------------------------ evaluation table for the replay into base/time.py *)
 B(b) == IF b THEN 1 ELSE 0
